@@ -3,6 +3,7 @@ from .. import ast as A
 from .. import jit as J
 from .. import asmchecks as AC
 from .. import asmcopy as AK
+from .. import jitdriver as JD
 
 
 def run(ctx):
@@ -33,3 +34,7 @@ def run(ctx):
         ctx.guarded(r, AC.check_int_compare, kind)
     r = ctx.rule("R2i", "sibling assemblers agree on the magic constants of each opcode", 5)
     ctx.guarded(r, AC.check_magic_constants)
+    r = ctx.rule("R4", "bulk driver: scratch iff n < SIMD, main call over the largest multiple, remainder re-evaluates the last full vector with equal input/output offsets, exactly n samples returned", 11)
+    ctx.guarded(r, JD.r_bulk_driver)
+    r = ctx.rule("R2c", "stride, element-size, register-window and frame constants agree with the data types", 19)
+    ctx.guarded(r, JD.r_strides)
